@@ -138,7 +138,9 @@ Definition key_table : list (list Z) :=
                 "content-type"; "user-agent"; "te"; "grpc-status"; "grpc-";
                 "grpc-trace-bin2"; "grpc-trace-bi"; "grpc-timeout"; "grpc"; "grpc_x";
                 "Grpc-foo"; "a"; "abcdef"; "key-bin"; ""; "te2"; "x-grpc-y"; ":method";
-                "content-typ"; "user-agent2"; "lb-tokens"]%string.
+                "content-typ"; "user-agent2"; "lb-tokens";
+                "grpc-tags-bin"; "grpc-status-details-bin"; "grpc-x-bin"; "grpc--bin";
+                "grpc-bin"; "user-key-bin"; "x-grpc-trace-bin"]%string.
 Definition key_of (kid : Z) : option (list Z) :=
   if kid <? 0 then None else nth_error key_table (Z.to_nat kid).
 Fixpoint kid_from (i : Z) (tbl : list (list Z)) (k : list Z) : Z :=
@@ -346,12 +348,7 @@ Definition is_finding_clause (c : Z * Z * bool) : bool :=
 Definition holds_b (ops obs : list word) : bool :=
   forallb (fun c => is_finding_clause c || snd c) (clauses ops obs).
 
-(* The refuted clauses (known findings) are evaluated last and only when everything
-   else is in order, so that a known finding can never mask a correspondence break or
-   the failure of another clause in the same case. *)
+(* Codec.decide reports every false clause and the first differing observation, so a
+   known finding (clauses 4, 5) cannot mask another failure in the same case. *)
 Definition check_case (c : case) : verdict :=
-  let cl := clauses (c_ops c) (c_obs c) in
-  match decide (run (c_ops c)) (c_obs c) (filter (fun x => negb (is_finding_clause x)) cl) with
-  | Agree => decide (run (c_ops c)) (c_obs c) (filter is_finding_clause cl)
-  | v => v
-  end.
+  decide (run (c_ops c)) (c_obs c) (clauses (c_ops c) (c_obs c)).
